@@ -94,6 +94,18 @@ class E6:
     pass
 
 
+class TimeoutError:  # noqa: A001 - deliberately named like a builtin (a library's own exception class)
+    pass
+
+
+class Warning:  # noqa: A001
+    pass
+
+
+class KeyError_:
+    pass
+
+
 class MyList(list):
     pass
 
@@ -129,4 +141,4 @@ def make_gen():
     return genfunc()
 
 
-CLASSES = [A, B, C, D, M, R1, R2, X1, X2, X3, X4, X5, X6, Outer, Outer.Inner, Outer.Inner.Deep, E1, E2, E3, E4, E5, E6]
+CLASSES = [TimeoutError, Warning, A, B, C, D, M, R1, R2, X1, X2, X3, X4, X5, X6, Outer, Outer.Inner, Outer.Inner.Deep, E1, E2, E3, E4, E5, E6]
